@@ -11,10 +11,15 @@
                              included; any libm): the total_cmp key is injective
       C11_f64_med_member     without NaN and for an odd count the median is one of the arguments
       C11_f64_avg            avg is the left-to-right IEEE sum divided by the count (order matters only through
-                             rounding, as the property allows) *)
-From Coq Require Import List ZArith Bool Permutation Sorting.Sorted.
+                             rounding, as the property allows)
+      C11_number_min_max     eval_number min / max over finite arguments (Integers and Floats mixed): the result is one
+                             of the arguments and is <= / >= every argument as a real number (the mixed comparison
+                             is exact: C09_mixed_comparison_exact); its VALUE does not depend on the argument order
+      C11_number_med         eval_number's sort is a permutation sorted by real value whose values depend only on the
+                             multiset of arguments; for an odd count the VALUE of med does not depend on the order *)
+From Coq Require Import List ZArith Reals Bool Permutation Sorting.Sorted.
 From SC Require Import Base.Res Base.RustInt Base.F64 Base.Oracle Lang.Syntax Lang.Parser Eval.Common Eval.EvalI64 Eval.EvalF64 Gen.Tables
-  Spec.Surface Proofs.NoPanic Proofs.AggFacts Proofs.AggF64.
+  Spec.Surface Proofs.NoPanic Proofs.AggFacts Proofs.AggF64 Proofs.NumCompare Eval.EvalNum Base.Num.
 Import ListNotations.
 Local Open Scope Z_scope.
 
@@ -87,6 +92,30 @@ Theorem C11_f64_avg :
   forall (L : libm) vs, agg_f64 L AAvg vs = Ok (fdiv (fold_left fadd vs fzero) (f64_of_Z (Z.of_nat (length vs)))).
 Proof. exact agg_f64_avg_def. Qed.
 Print Assumptions C11_f64_avg.
+
+Theorem C11_number_min_max :
+  forall vs r, nfin_all vs -> vs <> [] ->
+    (agg_num AMin vs = Ok r -> In r vs /\ Forall (fun v => (nval r <= nval v)%R) vs) /\
+    (agg_num AMax vs = Ok r -> In r vs /\ Forall (fun v => (nval v <= nval r)%R) vs).
+Proof. intros vs r HF Hne. split; [now apply agg_num_min|now apply agg_num_max]. Qed.
+Print Assumptions C11_number_min_max.
+
+Theorem C11_number_min_max_order :
+  forall g vs vs' r r', g = AMin \/ g = AMax -> nfin_all vs -> vs <> [] -> Permutation vs vs' ->
+    agg_num g vs = Ok r -> agg_num g vs' = Ok r' -> nval r = nval r'.
+Proof. exact agg_num_minmax_perm. Qed.
+Print Assumptions C11_number_min_max_order.
+
+Theorem C11_number_med :
+  (forall l, Permutation l (sortN l)) /\
+  (forall l, nfin_all l -> StronglySorted (fun a b => (nval a <= nval b)%R) (sortN l)) /\
+  (forall l l', nfin_all l -> Permutation l l' -> map nval (sortN l) = map nval (sortN l')) /\
+  (forall vs vs' r r', nfin_all vs -> Permutation vs vs' -> Nat.even (length vs) = false ->
+     agg_num AMed vs = Ok r -> agg_num AMed vs' = Ok r' -> nval r = nval r').
+Proof.
+  split; [exact sortN_perm|]. split; [exact sortN_sorted|]. split; [exact sortN_values_perm|exact agg_num_med_odd_perm].
+Qed.
+Print Assumptions C11_number_med.
 
 Example C11_examples :
   agg_i64 AMin [3; -1; 2] = Ok (-1) /\ agg_i64 AMax [3; -1; 2] = Ok 3 /\ agg_i64 AAvg [7; -2] = Ok 2 /\
